@@ -125,6 +125,13 @@ Definition run_shard_ident (a : sx) : sx :=
   | _ => sx_err "shard.ident"
   end.
 
+(* (prefix pfx_bits after_split after_merge) -> shard ids of ton.GetParents *)
+Definition run_parents (a : sx) : sx :=
+  match a with
+  | SL [SN p; SN b; SB sp; SB mg] => SL (map SN (get_parents p b sp mg))
+  | _ => sx_err "parents"
+  end.
+
 Definition run_adnl (a : sx) : sx :=
   match a with
   | SBytes addr => SBytes (adnl_print crc16_table addr)
@@ -212,6 +219,7 @@ Definition run (name : string) (a : sx) : sx :=
   else if is "c17.shard.child" then run_shard_child a
   else if is "c17.shard.parent" then run_shard_parent a
   else if is "c17.shard.ident" then run_shard_ident a
+  else if is "c17.parents" then run_parents a
   else if is "c17.adnl" then run_adnl a
   else if is "c17.parseadnl" then run_parse_adnl a
   else if is "c17.tlb" then run_tlb a
